@@ -45,6 +45,7 @@ type c17Set struct {
 	names []string // relative to the set directory (PAR1: no sub-directories)
 	data  map[string][]byte
 	links map[string]string // name -> target: the input is a symbolic link to another input
+	again bool              // the first input is listed a second time at the end of the command line
 	s, r  int
 }
 
@@ -78,6 +79,12 @@ func c17Sets(format string) []c17Set {
 		mk([]string{"x.dat", "y.dat", "d/z.dat", "w.dat"}, []int{1, 17000, 64, 300}, 100, 5, 2),
 		mk([]string{"only.one"}, []int{70000}, 2000, 2, 3),
 		linked,
+		func() c17Set {
+			// set 5: the same file given twice (whatever Create makes of that, it must not depend on how the two are spelled)
+			st := mk([]string{"a.dat", "sub/b.dat", "c.dat"}, []int{300, 5000, 40}, 64, 3, 5)
+			st.again = true
+			return st
+		}(),
 	}
 }
 
@@ -189,6 +196,9 @@ func runC17(args []string) error {
 		var files []string
 		for _, n := range order {
 			files = append(files, spell(n))
+		}
+		if st.again {
+			files = append(files, spell(order[0]))
 		}
 		errText := ""
 		doCreate := func() {
